@@ -17,7 +17,7 @@ from fractions import Fraction
 WIDE = 1 << 30
 
 
-COMPOUND = ("guarded", "ite", "snark", "cf", "try")
+COMPOUND = ("guarded", "ite", "snark", "cf", "cfevents", "try")
 
 
 class DriverAbort(Exception):
@@ -355,6 +355,9 @@ class Driver:
                               "npub_at_ret": captured.get("npub_at_ret", -1), "npriv_at_ret": captured.get("npriv_at_ret", -1),
                               "called": captured["called"], "npub_total": len(self.rec.pub), "inner_shape": captured.get("inner_shape", "")}
             return r
+        if op == "cfevents":
+            from harness import cfevents
+            return cfevents.run(self, st["events"])
         if op == "cf":
             from harness import cfdriver
             return cfdriver.run(self, st["prog"], st["inputs"])
